@@ -288,6 +288,24 @@ fn enum_large(tier: Tier, f: &mut dyn FnMut(SeqCase) -> bool) {
             }
         }
     }
+    // a block of 12 fresh items in front of / a block of 30 items moved to the end of a long run of
+    // distinct items (every item is unique on both sides)
+    for &n in &[3000u32, 20_000] {
+        for alg in 0..2u8 {
+            let a: Vec<u32> = (0..n).collect();
+            let mut b: Vec<u32> = (8_000_000..8_000_012).collect();
+            b.extend(0..n);
+            if !f(SeqCase::full(alg, a.clone(), b)) {
+                return;
+            }
+            let mut b2 = a.clone();
+            let blk: Vec<u32> = b2.drain(100..130).collect();
+            b2.extend(blk);
+            if !f(SeqCase::full(alg, a, b2)) {
+                return;
+            }
+        }
+    }
     // distinct items, sizes straddling a power of two (2^k - 1 items vs 2^k + 1: one inserted, one replaced)
     for k in 8..=13u32 {
         for alg in 0..2u8 {
